@@ -117,7 +117,7 @@ def plan(tier):
             c1 = u % len(POOL)
             c2, c3 = (c1 + 1) % len(POOL), (u * 7 + 3) % len(POOL)
             own = [(c1, i) for i in range(3)] + [(c2, i) for i in range(3)] + [(c3, u % 3)]
-            units.append({'n': 60, 'own': own})
+            units.append({'n': 40, 'own': own})
     return units
 
 
@@ -156,11 +156,18 @@ def _job(ci, ii, dtype, convert=None):
 
 
 def goldens(jobs):
-    """Compute missing goldens, each in its own fresh interpreter (in parallel)."""
-    todo = []
+    """Compute missing goldens, each in its own fresh interpreter; at most PWV_GOLDEN_PAR (default 4 with <= 8 shards, else 2) at a time per
+    shard, because every interpreter imports torch (~350 MB) and 16 shards run side by side."""
+    par = max(1, int(os.environ.get('PWV_GOLDEN_PAR', '4' if int(os.environ.get('PWV_NSHARDS', '16')) <= 8 else '2')))
+    pending = []
     for job in jobs:
         key = json.dumps(job, sort_keys=True)
-        if key not in _GOLD and key not in [k for k, _, _ in todo]:
+        if key not in _GOLD and key not in [k for k, _ in pending]:
+            pending.append((key, job))
+    while pending:
+        batch, pending = pending[:par], pending[par:]
+        todo = []
+        for key, job in batch:
             out = tempfile.NamedTemporaryFile(suffix='.npz', dir=os.path.join(core.VERIF, '.work'), delete=False)
             out.close()
             p = subprocess.Popen([sys.executable, '-B', '-m', 'pwv.golden', out.name], stdin=subprocess.PIPE,
@@ -168,17 +175,17 @@ def goldens(jobs):
             p.stdin.write(json.dumps(job).encode())
             p.stdin.close()
             todo.append((key, p, out.name))
-    for key, p, path in todo:
-        rc = p.wait()
-        err = p.stderr.read().decode()[-1500:]
-        try:
-            if rc != 0:
-                _GOLD[key] = ('error', err)
-            else:
-                with np.load(path) as z:
-                    _GOLD[key] = ('ok', [z['arr_%d' % i] for i in range(len(z.files))])
-        finally:
-            os.unlink(path)
+        for key, p, path in todo:
+            err = p.stderr.read().decode()[-1500:]
+            rc = p.wait()
+            try:
+                if rc != 0:
+                    _GOLD[key] = ('error', err)
+                else:
+                    with np.load(path) as z:
+                        _GOLD[key] = ('ok', [z['arr_%d' % i] for i in range(len(z.files))])
+            finally:
+                os.unlink(path)
     return [_GOLD[json.dumps(job, sort_keys=True)] for job in jobs]
 
 
